@@ -1181,7 +1181,13 @@ class InterpMixin:
             k = self.concretize(k)
         if isinstance(c, dict):
             if isinstance(k, Sym):
-                raise Unsupported("symbolic key stored into concrete dict")
+                # symbolic (string) key: decide equality with the existing keys on this path
+                for kk in list(c):
+                    if isinstance(kk, (Sym, str, int)) and self.truth(self.py_eq(kk, k)):
+                        c[kk] = v
+                        return
+                c[k] = v
+                return
             for kk in list(c):
                 if kk is not k and not isinstance(kk, (int, str, float, bool, tuple, type(None))) and self.py_eq(kk, k) is True:
                     c[kk] = v
